@@ -9,6 +9,9 @@ From J5V.model Require CodecDecTime.
 From J5V.proofs Require CodecDecTime.
 From J5V.lib Require Civil Decimal.
 From J5V.proofs Require CodecDecDecimal CodecDecTimeFast.
+From Coq Require Import Permutation.
+From J5V.model Require CodecDecCommute.
+From J5V.proofs Require CodecDecMsgSorted CodecDecReorder.
 Import ListNotations.
 Local Open Scope N_scope.
 
@@ -373,6 +376,41 @@ Proof.
   eapply VM_member; [reflexivity | reflexivity | split; discriminate | | apply VM_same; apply VM_nil].
   apply V_scalar; [reflexivity | reflexivity | split; discriminate | vm_compute; reflexivity].
 Qed.
+
+(* ------------------------------------------------------------------ member reordering *)
+(* The members of a JSON object can be given in any order: if JSONToProto accepts a document, it accepts
+   every document whose root object has the same members in another order, with the same message; and
+   so a permutation is accepted exactly when the original is.  Schema condition [props_commute] (any two
+   properties of the object: their proto paths part into different fields, neither a oneof sibling of the
+   other; or the sets of fields they can touch are disjoint (exposed oneofs); or they are members of one
+   proto oneof, which never both succeed) is decidable; every correspondence case checks it for all
+   objects and oneofs of the real schemas (env_commute in dec_check). *)
+Theorem C03_reordered_document_same_message : forall orc e root props bs bs' ms ms' rest rest' me me',
+  lookup e root = Some (SObject props) -> CodecDecReorder.props_commute e props ->
+  lex bs = (tokens_of (JObj ms) ++ rest, me) -> lex bs' = (tokens_of (JObj ms') ++ rest', me') ->
+  Permutation ms ms' ->
+  forall m', decode_bytes orc e root bs = Ok m' <-> decode_bytes orc e root bs' = Ok m'.
+Proof. exact CodecDecReorder.reordered_document_iff. Qed.
+Print Assumptions C03_reordered_document_same_message.
+
+(* the same for the members of any object body, from any (sorted) state of the enclosing decode *)
+Theorem C03_reordered_object_same_message : forall orc e d props ms ms' m seen m' f,
+  CodecDecReorder.props_commute e props -> Permutation ms ms' -> CodecDecMsgSorted.wf m ->
+  tr_object orc e f d props ms m seen = Ok m' -> exists f', tr_object orc e f' d props ms' m seen = Ok m'.
+Proof. exact CodecDecReorder.reordered_object. Qed.
+Print Assumptions C03_reordered_object_same_message.
+
+Theorem C03_reorder_condition_decidable : forall e ref props, CodecDecCommute.env_commute e = true ->
+  (lookup e ref = Some (SObject props) \/ lookup e ref = Some (SOneof props)) -> CodecDecReorder.props_commute e props.
+Proof. exact CodecDecReorder.env_commute_sound. Qed.
+Print Assumptions C03_reorder_condition_decidable.
+
+(* {"i":-7,"r":["a"]} and {"r":["a"],"i":-7} on var_env *)
+Example C03_example_reordered :
+  CodecDecCommute.env_commute var_env = true /\
+  decode_bytes no_oracles var_env [78] [123;34;114;34;58;91;34;97;34;93;44;34;105;34;58;45;55;125]
+  = decode_bytes no_oracles var_env [78] var_doc2.
+Proof. split; vm_compute; reflexivity. Qed.
 
 (* ------------------------------------------------------------------ timestamps *)
 (* time.Parse(time.RFC3339, .) is modelled (model/CodecDecTime.v: Go's general layout parser, which
